@@ -54,7 +54,7 @@ def main(ctx):
     ctx.extra["registered_operators"] = len(keys)
     ctx.extra["operators_constructed"] = len(built)
     ctx.extra["operators_not_constructed"] = unbuilt
-    n = int(os.environ.get("VERIF_OPS_N", "0")) or ctx.n(700, 8000)
+    n = int(os.environ.get("VERIF_OPS_N", "0")) or ctx.n(600, 8000)
     cases = ctx.gen_exec(bindir, "c14", n, extra_gen=[",".join(keys)], inputs=ctx.replay_inputs())
     covered = set(c["tag"] for c in cases if not c["tag"].startswith("trivial"))
     ctx.extra["operators_with_successful_case"] = len(covered)
